@@ -74,6 +74,13 @@ func genOp(t *rapid.T, phase int) kit.Cmd {
 		return c("zrem", args...)
 	case 2:
 		args := []string{key(t), gen.SmallInt(t, "s", -14, 14), gen.SmallInt(t, "e", -14, 14)}
+		if rapid.IntRange(0, 9).Draw(t, "extreme") == 0 {
+			ext := []string{"9223372036854775807", "-9223372036854775808", "9223372036854775806", "-9223372036854775807", "2147483648", "-2147483649", "4294967296"}
+			args[1+rapid.IntRange(0, 1).Draw(t, "which")] = rapid.SampledFrom(ext).Draw(t, "ext")
+			if rapid.Bool().Draw(t, "both") {
+				args[1], args[2] = gen.Pick(t, "es", "0", "-9223372036854775808", "1", "-1"), rapid.SampledFrom(ext).Draw(t, "ext2")
+			}
+		}
 		if rapid.IntRange(0, 11).Draw(t, "bad") == 0 {
 			args[1] = gen.Pick(t, "badidx", "x", "", "1.5")
 		}
